@@ -156,18 +156,18 @@ impl LineJoin {
             // Normal line: non-overlapping line end caps
             if !self_intersection {
                 // Distance from midpoint to miter outside end point.
-                let miter_length_squared = Line::new(
-                    mid,
-                    match outer_side {
-                        LineSide::Left => l_intersection,
-                        LineSide::Right => r_intersection,
-                    },
-                )
-                .delta()
-                .length_squared() as u32;
+                //
+                // The outside end point of a miter between two almost parallel lines can be far
+                // away from the midpoint, 64 bit integers are used to prevent overflows.
+                let miter_delta = match outer_side {
+                    LineSide::Left => l_intersection,
+                    LineSide::Right => r_intersection,
+                } - mid;
+                let miter_length_squared =
+                    i64::from(miter_delta.x).pow(2) + i64::from(miter_delta.y).pow(2);
 
                 // Miter length limit is double the line width (but squared to avoid sqrt() costs)
-                let miter_limit = (width * 2).pow(2);
+                let miter_limit = (i64::from(width) * 2).pow(2);
 
                 // Intersection is within limit at which it will be chopped off into a bevel, so
                 // return a miter.
